@@ -426,7 +426,13 @@ class printcore():
         self.mainqueue = gcode
         self.printing = True
         self.resendfrom = -1
-        self.clear = False
+
+        # Wait for the acknowledgment of the line number reset only if
+        # one is sent (no line numbers, no reset: nothing is on its way)
+
+        if self._send_line_numbers:
+            self.clear = False
+
         self._reset_line_numbers()
 
         resuming = (startindex != 0)
